@@ -27,10 +27,11 @@ def lemmas(tier):
     add("merge_second", [("k2", "int"), ("s2", "int")], "V.merge_ok(31, k2, 1, s2, 6)", ["0 <= k2 < 32", "0 <= s2 < 4"], "create_lsp_model([d1, d2]) == d1 extended in order by d2 (d1 fills every list, d2 any subset of the lists)")
     add("eq_same_lists", [("k", "int"), ("si", "int")], "V.eq_same(k, (1, 3, 9)[si], 6)", ["0 <= k < 32", "0 <= si < 3"], "two loads of the same document compare equal and == does not raise (any subset of lists x type kind)")
     add("eq_same_types", [sel, b], "V.eq_same(31, sel, b)", ["0 <= sel < 11", "0 <= b < 9"], "two loads of the same document compare equal and == does not raise (type kind x base name)")
-    for which in range(12):
-        add("eq_differs_%d" % which, [("sel2", "int"), ("b2", "int")], "V.eq_differs(31, 3, 6, %d, sel2, b2)" % which, ["0 <= sel2 < 11", "0 <= b2 < 9"], "a structural difference (%s) makes two models unequal" % ["structure name", "property type", "property optional", "enum value", "alias type", "alias name", "request method", "request result", "notification params", "request params", "metaData version", "property name"][which])
+    for which in range(14):
+        add("eq_differs_%d" % which, [("sel2", "int"), ("b2", "int")] + ([("si", "int")] if which >= 12 else []), "V.eq_differs(31, %s, 6, %d, sel2, b2)" % ("(3, 4, 7)[si]" if which >= 12 else "3", which), ["0 <= sel2 < 11", "0 <= b2 < 9"] + (["0 <= si < 3"] if which >= 12 else []), "a structural difference (%s) makes two models unequal" % ["structure name", "property type", "property optional", "enum value", "alias type", "alias name", "request method", "request result", "notification params", "request params", "metaData version", "property name", "trailing member of an or/and/tuple dropped", "member appended to an or/and/tuple"][which])
     add("eq_foreign", [("k", "int"), ("other", "int"), sel], "V.eq_foreign(k, sel, 6, other)", ["0 <= k < 10", "0 <= other < 5", "0 <= sel < 11"], "comparing any model node with an unrelated object gives False and never raises")
     add("gate", [("n", "int"), ("bad", "int"), ("plugin", "int")], "V.gate_ok(n, bad, plugin)", ["1 <= n <= 3", "0 <= bad < n", "0 <= plugin < 4"], "schema violation at model #bad of n: main() raises before any plugin runs, nothing written")
+    add("gate_real", [("v", "int"), ("position", "int")], "V.gate_real(v, position, v % 4)", ["0 <= v < len(V.VIOLATIONS)", "0 <= position < 2"], "a model file with a single schema-violating edit (14 kinds, first or second on the command line): the generator command fails before any plugin runs, nothing written (real jsonschema.validate)")
     add("gate_reach", [("n", "int"), ("plugin", "int")], "V.gate_passes_when_valid(n, plugin)", ["1 <= n <= 3", "0 <= plugin < 4"], "without a violation the plugin runs exactly once (reachability of the gate lemma)")
     return L
 
@@ -41,6 +42,11 @@ def check(tier):
 
     chk = runner.Check("C18", tier)
     ls = lemmas(tier)
+    from props import c18rt
+
+    notviol = c18rt.violations_are_violations()
+    if notviol:
+        chk.harness_error("edits that do not violate the schema (harness data wrong): %r" % notviol)
     # known findings: exclude the recorded region by precondition, keep deciding the rest of the lemma
     for l in ls:
         for e in chk.known_for("C18 " + l.id):
